@@ -601,6 +601,11 @@ func genC11BaseMode(r *Rng, farFuture bool) (*Plan, *HistGen) {
 			}
 		}
 	}
+	if !farFuture && r.Chance(1, 12) {
+		// every timestamp ahead of the clock (copied from a machine whose clock runs fast, or the clock
+		// was set back): order and distances are what they were, and the rules compare files with files
+		g.P.Add(Op{K: "shift-mtimes", N: Pick(r, []int64{7200, 86400, 400 * 86400}), Label: "timestamps-ahead-of-clock"})
+	}
 	return g.P, g
 }
 
